@@ -4,6 +4,7 @@ package main
 // c17a_gen.sh (sed on the import paths and the type name). Do not edit the generated copies.
 
 import (
+	"bytes"
 	"crypto/sha256"
 	"math/big"
 
@@ -90,6 +91,97 @@ func (c17C_bls12_377) noSubG1() (curve.G1Affine, bool) {
 }
 func (c c17C_bls12_377) hasNoSubG1() bool { _, ok := c.noSubG1(); return ok }
 
+// A point T ≠ O of cofactor order: on the curve, [h]T = O, hence OUTSIDE the prime-order subgroup and with trivial pairing
+// against it. T = [r]P for a curve point P outside the subgroup (P: the generator's compressed encoding with the low bytes
+// of X replaced, decoded WITHOUT subgroup check), by plain double-and-add (ScalarMultiplication uses the GLV endomorphism,
+// which is only an eigenvalue multiplication inside the subgroup). seed selects P. ok = false when the cofactor is 1.
+var c17TorsA_bls12_377 = map[int]*curve.G1Affine{}
+var c17TorsB_bls12_377 = map[int]*curve.G2Affine{}
+
+func (c17C_bls12_377) torsionG1(seed int) (curve.G1Affine, bool) {
+	if t, ok := c17TorsA_bls12_377[seed]; ok {
+		if t == nil {
+			return curve.G1Affine{}, false
+		}
+		return *t, true
+	}
+	c17TorsA_bls12_377[seed] = nil
+	_, _, g, _ := curve.Generators()
+	enc := g.Bytes()
+	r := fr.Modulus()
+	for i := 0; i < 48; i++ {
+		b := enc
+		b[len(b)-1], b[len(b)-2] = byte(i), byte(seed)
+		var p curve.G1Affine
+		if err := curve.NewDecoder(bytes.NewReader(b[:]), curve.NoSubgroupChecks()).Decode(&p); err != nil {
+			continue // X³ + b is not a square
+		}
+		if p.IsInfinity() || !p.IsOnCurve() || p.IsInSubGroup() {
+			continue
+		}
+		var acc, base curve.G1Jac
+		base.FromAffine(&p)
+		acc.X.SetOne()
+		acc.Y.SetOne() // Z = 0: the point at infinity
+		for k := r.BitLen() - 1; k >= 0; k-- {
+			acc.DoubleAssign()
+			if r.Bit(k) == 1 {
+				acc.AddAssign(&base)
+			}
+		}
+		var t curve.G1Affine
+		t.FromJacobian(&acc)
+		if t.IsInfinity() || !t.IsOnCurve() || t.IsInSubGroup() {
+			continue
+		}
+		c17TorsA_bls12_377[seed] = &t
+		return t, true
+	}
+	return curve.G1Affine{}, false
+}
+
+func (c17C_bls12_377) torsionG2(seed int) (curve.G2Affine, bool) {
+	if t, ok := c17TorsB_bls12_377[seed]; ok {
+		if t == nil {
+			return curve.G2Affine{}, false
+		}
+		return *t, true
+	}
+	c17TorsB_bls12_377[seed] = nil
+	_, _, _, g := curve.Generators()
+	enc := g.Bytes()
+	r := fr.Modulus()
+	for i := 0; i < 48; i++ {
+		b := enc
+		b[len(b)-1], b[len(b)-2] = byte(i), byte(seed)
+		var p curve.G2Affine
+		if err := curve.NewDecoder(bytes.NewReader(b[:]), curve.NoSubgroupChecks()).Decode(&p); err != nil {
+			continue
+		}
+		if p.IsInfinity() || !p.IsOnCurve() || p.IsInSubGroup() {
+			continue
+		}
+		var acc, base curve.G2Jac
+		base.FromAffine(&p)
+		acc.X.SetOne()
+		acc.Y.SetOne()
+		for k := r.BitLen() - 1; k >= 0; k-- {
+			acc.DoubleAssign()
+			if r.Bit(k) == 1 {
+				acc.AddAssign(&base)
+			}
+		}
+		var t curve.G2Affine
+		t.FromJacobian(&acc)
+		if t.IsInfinity() || !t.IsOnCurve() || t.IsInSubGroup() {
+			continue
+		}
+		c17TorsB_bls12_377[seed] = &t
+		return t, true
+	}
+	return curve.G2Affine{}, false
+}
+
 // ------------------------------------------------------------------------------------------------ Pedersen
 
 func (c c17C_bls12_377) pedKeys(g, s *big.Int, b []*big.Int) (pedersen.ProvingKey, pedersen.VerifyingKey) {
@@ -166,6 +258,16 @@ func (c c17C_bls12_377) pedSingle(a kvs) string {
 			return "bad-op"
 		}
 		pok = p
+	case "Ctor", "Ptor": // honest element + a point of cofactor order: the pairing equation still holds, only the subgroup check sees it
+		t, ok := c.torsionG1(int(new(big.Int).Mod(m, big.NewInt(5)).Int64()))
+		if !ok {
+			return "bad-op"
+		}
+		if a["mut"] == "Ctor" {
+			C.Add(&C, &t)
+		} else {
+			pok.Add(&pok, &t)
+		}
 	default:
 		return "bad-op"
 	}
@@ -241,6 +343,24 @@ func (c c17C_bls12_377) pedBatch(a kvs) string {
 		for x := range poks {
 			poks[x].ScalarMultiplication(&poks[x], m)
 		}
+	case "CzeroAll": // every commitment the identity, proofs of knowledge kept: the G1 operands of the σ-pairs all vanish
+		for x := range cs {
+			cs[x] = curve.G1Affine{}
+		}
+	case "PzeroAll": // every proof of knowledge the identity: the G1 operand of the last pair vanishes
+		for x := range poks {
+			poks[x] = curve.G1Affine{}
+		}
+	case "Ctor", "Ptor":
+		t, ok := c.torsionG1(int(new(big.Int).Mod(m, big.NewInt(5)).Int64()))
+		if !ok {
+			return "bad-op"
+		}
+		if a["mut"] == "Ctor" {
+			cs[i].Add(&cs[i], &t)
+		} else {
+			poks[i].Add(&poks[i], &t)
+		}
 	case "Pcomp":
 		mr := new(big.Int).Mul(m, a.big("r"))
 		d0 := c.g1(mr)
@@ -292,7 +412,8 @@ func (c c17C_bls12_377) shChallenges(points, claimed [][]fr.Element, digests []k
 }
 
 // W' = [ (Σ γ^k Z_{T∖S_k}(z)(f_k(τ) − r_k(z)) − Z_T(z)·w) / (τ − z) ] through the trapdoor; w = discrete log of W
-func (c c17C_bls12_377) shWPrimeTrapdoor(x *c17Sh_bls12_377, tf, w, gamma, z fr.Element) (curve.G1Affine, bool) {
+// vanish = true: the same numerator divided by −z: the FIRST operand F + z·W' of the verifier's pairing product is the identity
+func (c c17C_bls12_377) shWPrimeTrapdoor(x *c17Sh_bls12_377, tf, w, gamma, z fr.Element, vanish bool) (curve.G1Affine, bool) {
 	var acc, g, t fr.Element
 	g.SetOne()
 	for k := range x.points {
@@ -308,6 +429,9 @@ func (c c17C_bls12_377) shWPrimeTrapdoor(x *c17Sh_bls12_377, tf, w, gamma, z fr.
 	ztz.Mul(&ztz, &w)
 	acc.Sub(&acc, &ztz)
 	t.Sub(&tf, &z)
+	if vanish { // F + z·W' = O instead of F = (τ − z)·W'
+		t.Neg(&z)
+	}
 	if t.IsZero() {
 		return curve.G1Affine{}, false
 	}
@@ -463,8 +587,11 @@ func (c c17C_bls12_377) shMutate(a kvs, x *c17Sh_bls12_377, other *c17Sh_bls12_3
 	case "vkH1":
 		x.vk.G2[1] = c.g2(m)
 		x.vk.Lines[1] = curve.PrecomputeLines(x.vk.G2[1])
-	case "forge":
-		// TRAPDOOR forgery: claimed[i][j] += m, W kept, W' recomputed through τ for the verifier's challenges (which depend on
+	case "forge", "vanish":
+		// "vanish": PARTIAL-VANISHING forgery: claimed[i][j] += m, W kept, W' := −F/z for the verifier's challenges, so that the
+		// first G1 operand F + z·W' of the pairing product is the identity while W' ≠ O: the relation F = (τ − z)·W' is false.
+		// (The forger needs the discrete logarithm of F only because the harness builds points from scalars.)
+		// "forge": TRAPDOOR forgery: claimed[i][j] += m, W kept, W' recomputed through τ for the verifier's challenges (which depend on
 		// the claimed values since the fix 420bc96): the verification relation holds although the statement is false
 		if len(x.polys) != len(x.points) {
 			return false
@@ -479,7 +606,7 @@ func (c c17C_bls12_377) shMutate(a kvs, x *c17Sh_bls12_377, other *c17Sh_bls12_3
 		if x.derive {
 			gamma, z = c.shChallenges(x.points, x.proof.ClaimedValues, x.digests, x.proof.W)
 		}
-		wp, ok := c.shWPrimeTrapdoor(x, tf, w, gamma, z)
+		wp, ok := c.shWPrimeTrapdoor(x, tf, w, gamma, z, a["mut"] == "vanish")
 		if !ok {
 			return false
 		}
@@ -526,7 +653,7 @@ func (c c17C_bls12_377) shMutate(a kvs, x *c17Sh_bls12_377, other *c17Sh_bls12_3
 		if x.derive {
 			_, z = c.shChallenges(x.points, x.proof.ClaimedValues, x.digests, x.proof.W)
 		}
-		wp, ok := c.shWPrimeTrapdoor(x, tf, w, x.gp, z) // the forger's γ, the verifier's z
+		wp, ok := c.shWPrimeTrapdoor(x, tf, w, x.gp, z, false) // the forger's γ, the verifier's z
 		if !ok {
 			return false
 		}
@@ -662,7 +789,8 @@ func (c c17C_bls12_377) fflonk(a kvs, derive bool) string {
 		}
 		return x, true
 	}
-	x, ok := build(toPacks(bigLLL(a["p"])))
+	packs := toPacks(bigLLL(a["p"]))
+	x, ok := build(packs)
 	if !ok {
 		if derive {
 			return "gp=0 zp=0 g2=0 z2=0 gv=0 zv=0"
@@ -674,8 +802,10 @@ func (c c17C_bls12_377) fflonk(a kvs, derive bool) string {
 		other, _ = build(toPacks(p2))
 	}
 	out := ""
+	gpF := c.fr(a.big("gp")) // the honest prover's γ (read by "vanish")
 	if derive {
 		gp, zp := c.ffChallenges(x)
+		gpF = gp
 		out = "gp=" + c.frHex(gp) + " zp=" + c.frHex(zp)
 		if other != nil {
 			g2, z2 := c.ffChallenges(other)
@@ -710,6 +840,39 @@ func (c c17C_bls12_377) fflonk(a kvs, derive bool) string {
 			x.proof.SOpeningProof.ClaimedValues[i][k*t+l].Add(&x.proof.SOpeningProof.ClaimedValues[i][k*t+l], &d)
 		}
 		x.proof.ClaimedValues[i][j][k].Add(&x.proof.ClaimedValues[i][j][k], &mF)
+	case "vanish":
+		// PARTIAL-VANISHING forgery through fflonk: the outer value [i][j][k] and the t inner values of that point move
+		// together (as "ocvPair": the folding check passes), W kept, W' := −F/z for the verifier's challenges: the first G1
+		// operand of the inner SHPLONK pairing product is the identity while W' ≠ O
+		in := &c17Sh_bls12_377{proof: x.proof.SOpeningProof, digests: x.digests, vk: x.vk, gp: gpF, derive: derive}
+		for q := range packs {
+			in.polys = append(in.polys, fflonk.Fold(packs[q]))
+			in.points = append(in.points, c.ffExtend(x.points[q], len(x.proof.ClaimedValues[q])))
+		}
+		tf := c.fr(tau)
+		w, ok := c.shWScalar(in, tf, in.gp) // discrete log of the honest W
+		if !ok {
+			return "bad-op"
+		}
+		t := len(x.proof.ClaimedValues[i])
+		ext := c.ffExtend([]fr.Element{x.points[i][k]}, t)
+		for l := 0; l < t; l++ {
+			var d fr.Element
+			d.Exp(ext[l], big.NewInt(int64(j)))
+			d.Mul(&d, &mF)
+			in.proof.ClaimedValues[i][k*t+l].Add(&in.proof.ClaimedValues[i][k*t+l], &d)
+		}
+		x.proof.ClaimedValues[i][j][k].Add(&x.proof.ClaimedValues[i][j][k], &mF)
+		gamma, z := c.fr(a.big("gv")), c.fr(a.big("zv"))
+		if derive {
+			gamma, z = c.shChallenges(in.points, in.proof.ClaimedValues, in.digests, in.proof.W)
+		}
+		wp, ok := c.shWPrimeTrapdoor(in, tf, w, gamma, z, true)
+		if !ok {
+			return "bad-op"
+		}
+		in.proof.WPrime = wp
+		x.proof.SOpeningProof = in.proof
 	case "optSet":
 		x.points[i][j] = mF
 	case "optAdd":
